@@ -456,6 +456,8 @@ Step(o, r) ==
     [] r.k = "env"    -> EnvRecord(o, r)
     [] r.k = "tick"   -> [o EXCEPT !.now = r.now]
     [] r.k = "end"    -> EndRecord(o, r)
+    \* the host submitted the next line of a scripted session: the persistent process runs that line's script
+    [] r.k = "line" /\ Has(r, "entry") -> [o EXCEPT !.script[0] = r.entry, !.pc[0] = 1]
     [] OTHER -> o
 
 RECURSIVE PrintAll(_)
